@@ -42,7 +42,14 @@ GUARDS = [
     ("hard_walsh_tau", "functional", None, "hard_walsh", "_check_temperature(tau)", "top"),
     ("compiled_groupsum_offset", "compiled", "CompiledLogicNet", "_parse_model",
      "if bool(torch.as_tensor(layer.beta).ne(0).any()):\n                raise ValueError"),
-    ("compiled_codegen_needs_model", "compiled", "CompiledLogicNet", "get_c_code", "if self.model is None:\n        raise ValueError", "top-if"),
+    ("compiled_codegen_needs_model", "compiled", "CompiledLogicNet", "_generate_c_code", "if self.model is None:\n        raise ValueError", "top-if"),
+    ("groupsum_tau_rule", "groupsum", "GroupSum", "_check_tau", "if not 0 < tau < math.inf:\n        raise ValueError", "top-if"),
+    ("groupsum_tau_ctor", "groupsum", "GroupSum", "__init__", "self._check_tau(tau)", "top"),
+    ("groupsum_tau_forward", "groupsum", "GroupSum", "forward", "self._check_tau(self.tau)", "top"),
+    ("compiled_layer_exact_class", "compiled", "CompiledLogicNet", "_parse_model",
+     "if isinstance(layer, base) and type(layer) is not base:\n                    raise ValueError"),
+    ("compiled_patched_rule", "compiled", "CompiledLogicNet", "_refuse_patched",
+     "if 'forward' in vars(module) or module._forward_hooks or module._forward_pre_hooks:\n        raise ValueError", "top-if"),
     ("conv2_param", "conv", "LogicConv2d", "__init__", "if parametrization not in ('raw', 'walsh'):\n        raise ValueError"),
     ("conv2_weight_init", "conv", "LogicConv2d", "__init__", "if weight_init not in ('residual', 'random'):\n        raise ValueError"),
     ("conv2_sampling", "conv", "LogicConv2d", "__init__",
